@@ -1,0 +1,44 @@
+//! Verification hooks. This module only exists when the crate is compiled with
+//! `RUSTFLAGS="--cfg stam_verif"`; in a normal build nothing of it is compiled in.
+//!
+//! `yield_point(site)` is called immediately *before* every access to the interior-mutable
+//! state that is reachable through a shared reference (`&self`): the serialisation mode held
+//! in [`crate::Config`] and the `changed` flags of stores, resources and datasets. A test
+//! harness can install a callback that blocks the calling thread there, which lets it
+//! enumerate thread interleavings deterministically. Without a callback the call does nothing.
+
+use std::sync::RwLock;
+
+/// `Config::set_serialize_mode()` is about to write the serialisation mode
+pub const SITE_SET_MODE: u8 = 1;
+/// `Config::serialize_mode()` is about to read the serialisation mode
+pub const SITE_GET_MODE: u8 = 2;
+/// `ChangeMarker::changed()` / `AnnotationStore::changed()` is about to read a changed flag
+pub const SITE_GET_CHANGED: u8 = 3;
+/// `ChangeMarker::mark_unchanged()` is about to clear a changed flag
+pub const SITE_MARK_UNCHANGED: u8 = 4;
+/// `ChangeMarker::mark_changed()` is about to set a changed flag
+pub const SITE_MARK_CHANGED: u8 = 5;
+
+static YIELD_CALLBACK: RwLock<Option<fn(u8)>> = RwLock::new(None);
+
+/// Installs (or with `None` removes) the process-wide callback invoked by [`yield_point`].
+pub fn set_yield_callback(callback: Option<fn(u8)>) {
+    match YIELD_CALLBACK.write() {
+        Ok(mut guard) => *guard = callback,
+        Err(poisoned) => *poisoned.into_inner() = callback,
+    }
+}
+
+/// Calls the installed callback, if any. The lock is released before the callback runs, so
+/// the callback may block for as long as it likes.
+#[inline]
+pub fn yield_point(site: u8) {
+    let callback = match YIELD_CALLBACK.read() {
+        Ok(guard) => *guard,
+        Err(poisoned) => *poisoned.into_inner(),
+    };
+    if let Some(callback) = callback {
+        callback(site);
+    }
+}
